@@ -30,6 +30,8 @@ pub enum Op {
     EmptyDir,
     /// a branch (not checked out) named exactly like an existing tag, at that tag's commit
     BranchLikeTag { which: usize },
+    /// a lightweight tag `v0.<n>.0` at HEAD (repositories with hundreds of releases)
+    TagNumbered { n: u32 },
 }
 
 pub const BRANCHES: [&str; 10] = ["develop", "feature/x", "release/1", "fé/ü", "007", "hotfix/12/a", "release-2", "Feature/API-v2", "users/a+b@c", "1.2.3"];
@@ -375,6 +377,16 @@ impl Repo {
                 let when = std::time::SystemTime::now() + std::time::Duration::from_secs(3600 + (self.log.len() as u64 % 7) * 60);
                 std::fs::File::options().write(true).open(&f).and_then(|h| h.set_modified(when)).map_err(|e| e.to_string())?;
                 self.log.push("rewrite f0.txt with identical content, new mtime".into());
+            }
+            Op::TagNumbered { n } => {
+                let nm = format!("v0.{n}.0");
+                if self.model.tags.iter().any(|t| t.name == nm) {
+                    return Ok(());
+                }
+                let c = self.model.head_commit();
+                let h = self.model.commits[c].hash.clone();
+                self.git(&["tag", &nm, &h], None)?;
+                self.model.tags.push(TagM { name: nm, commit: c, annotated: false });
             }
             Op::BranchLikeTag { which } => {
                 if self.model.tags.is_empty() {
